@@ -1,7 +1,7 @@
 SPECIFICATION Spec
 CONSTANTS
   Emit = FALSE
-  MaxHist = 5
+  MaxHist = 4
   Deviations = FALSE
 VIEW View
 INVARIANT TypeOK
